@@ -35,11 +35,11 @@ NEUTRAL_METHODS = {
     'into', 'as_ref', 'as_str', 'as_mut', 'as_deref', 'as_deref_mut', 'borrow', 'borrow_mut', 'deref', 'deref_mut',
     'clone', 'cloned', 'copied', 'to_string', 'to_owned', 'into_owned', 'to_vec', 'as_slice', 'as_path', 'to_path_buf',
     'unwrap', 'expect', 'unwrap_or_default', 'ok', 'ok_or', 'ok_or_else', 'take', 'iter', 'iter_mut', 'into_iter',
-    'filter', 'rev', 'peekable', 'collect', 'next', 'peek', 'skip', 'last', 'find', 'by_ref', 'first', 'get',
+    'filter', 'rev', 'peekable', 'collect', 'next', 'peek', 'skip', 'find', 'by_ref',
     'get_mut', 'into_static', 'to_token_stream', 'into_token_stream', 'map_err', 'into_boxed_str', 'as_bytes',
     'skip_while', 'take_while', 'inspect', 'fuse', 'into_inner', 'into_schema', 'values', 'into_values',
     'values_mut', 'drain', 'step_by', 'unwrap_unchecked', 'display', 'to_str', 'to_string_lossy', 'into_string',
-    'as_os_str', 'to_os_string', 'lock', 'from', 'new', 'unwrap_or_else_neutral', 'min', 'max', 'nth', 'sorted',
+    'as_os_str', 'to_os_string', 'lock', 'from', 'new', 'unwrap_or_else_neutral', 'min', 'max', 'sorted',
     'dedup', 'unzip', 'flatten', 'cycle', 'as_mut_slice', 'borrowed', 'owned', 'some', 'ok_', 'box_new',
 }
 # methods whose result also depends on another argument (joined)
@@ -289,7 +289,7 @@ class Prov:
                     a = cnode['args'][i] if i < len(cnode['args']) else None
                 if a is None:
                     continue
-                vals.append(self.eval(cfn, a, {}, d + 1))
+                vals.append(self.guarded(cfn, cnode, self.eval(cfn, a, {}, d + 1), d + 1))
             if not vals:
                 name = ''
                 p = fn.params[i] if i < len(fn.params) else {}
@@ -339,6 +339,20 @@ class Prov:
             return ('unknown', 'closure-param-of-call')
         return ('unknown', 'closure-param')
 
+    def guarded(self, fn, node, value, d):
+        """wrap `value` with the path conditions under which `node` (in fn) executes"""
+        pcs = path_conds(fn, node)
+        for pc in reversed(pcs):
+            if pc[0] == 'if':
+                c = self.eval(fn, pc[1], {}, d)
+                if c == ('const', True) or c[0] == 'unknown':
+                    continue
+                value = ('if', c, value, ('absent',)) if pc[2] else ('if', c, ('absent',), value)
+            elif pc[0] == 'match':
+                sc = self.eval(fn, pc[1], {}, d)
+                value = ('match', sc, ((pc[2], value),))
+        return value
+
     # ---- projections -------------------------------------------------------------------------
     def project(self, base, how, d):
         if base is None or base == ('absent',):
@@ -350,6 +364,10 @@ class Prov:
             return ('if', base[1], self.project(base[2], how, d), self.project(base[3], how, d))
         if tag == 'match':
             return ('match', base[1], tuple((p, self.project(t, how, d)) for p, t in base[2]))
+        if tag == 'sel':
+            return self.project(base[2], how, d)
+        if tag == 'list':
+            return join([self.project(b, how, d) for b in base[1]]) if base[1] else ('absent',)
         if how[0] == 'elem':
             return base
         if how[0] == 'tuple':
@@ -383,6 +401,10 @@ class Prov:
             return ('if', base[1], self.project_field(base[2], adt, name, d), self.project_field(base[3], adt, name, d))
         if tag == 'match':
             return ('match', base[1], tuple((p, self.project_field(t, adt, name, d)) for p, t in base[2]))
+        if tag == 'sel':
+            return self.project_field(base[2], adt, name, d)
+        if tag == 'list':
+            return join([self.project_field(b, adt, name, d) for b in base[1]]) if base[1] else ('absent',)
         if (adt, name) in self.origin_fields or self.is_origin_adt(adt):
             return ('field', base, adt, name)
         if tag == 'agg':
@@ -486,7 +508,7 @@ class Prov:
         return ('tuple', tuple(self.eval(fn, x, env, d) for x in e['es']))
 
     def ev_array(self, fn, e, env, d):
-        return join([self.eval(fn, x, env, d) for x in e['es']]) if e['es'] else ('unit',)
+        return ('list', tuple(self.eval(fn, x, env, d) for x in e['es']))
 
     def ev_index(self, fn, e, env, d):
         return self.eval(fn, e['base'], env, d)
@@ -565,7 +587,7 @@ class Prov:
             return ('diverge', name)
         if name == 'vec':
             a = self.macro_args(fn, e, env, d)
-            return join(a) if a else ('unit',)
+            return ('list', tuple(a))
         if name in ('write', 'writeln', 'print', 'println', 'eprintln', 'eprint', 'info', 'debug', 'warn', 'error', 'trace',
                     'assert', 'assert_eq', 'assert_ne', 'debug_assert', 'debug_assert_eq'):
             return ('unit',)
@@ -606,6 +628,19 @@ class Prov:
             return self.call_path(None, fake, list(args), d)
         return ('call', 'closure-apply', (clo,) + tuple(args))
 
+    def map_over(self, recv, clo, d):
+        """Option/Iterator map: None stays None, alternatives are mapped separately"""
+        tag = recv[0]
+        if tag in ('none', 'absent', 'unit'):
+            return recv
+        if tag == 'join':
+            return join([self.map_over(m, clo, d) for m in recv[1]])
+        if tag == 'if':
+            return ('if', recv[1], self.map_over(recv[2], clo, d), self.map_over(recv[3], clo, d))
+        if tag == 'match':
+            return ('match', recv[1], tuple((p, self.map_over(t, clo, d)) for p, t in recv[2]))
+        return self.apply_closure(clo, [recv], d)
+
     def bind_params(self, fn, params, args, env, d):
         for i, p in enumerate(params):
             a = args[i] if i < len(args) else ('unknown', 'missing-arg')
@@ -641,13 +676,15 @@ class Prov:
         # object sensitivity: a parameter bound to a join of record literals is analysed per literal,
         # so that fields of one record stay correlated
         for i, a in enumerate(args):
-            if a is not None and a[0] == 'join' and any(m[0] == 'agg' for m in a[1]):
-                outs = []
-                for m in sorted(a[1], key=repr):
-                    a2 = list(args)
-                    a2[i] = m
-                    outs.append(self.inline(fns, a2, d))
-                return join(outs)
+            if a is not None and a[0] in ('join', 'if', 'match'):
+                lv = list(leaves(a))
+                if len(lv) > 1 and any(l[0] == 'agg' for _, l in lv) and len(lv) <= 64:
+                    outs = []
+                    for conds, m in lv:
+                        a2 = list(args)
+                        a2[i] = m
+                        outs.append(wrap_conds(conds, self.inline(fns, a2, d)))
+                    return join(outs)
         outs = []
         for cfn in fns:
             key = ('I', cfn.key)
@@ -741,7 +778,7 @@ class Prov:
         if last in NEUTRAL_METHODS and args:
             return args[0]
         if p.endswith('Default::default') or last in ('default', 'new', 'with_capacity') and not args or last == 'with_capacity':
-            return ('unit',)
+            return ('absent',)
         if last in ('format',) and args:
             return args[0]
         return ('call', p, tuple(args))
@@ -759,9 +796,11 @@ class Prov:
         ev = lambda a: self.eval(fn, a, env, d)
         if meth in STRING_XF:
             return ('xf', STRING_XF[meth], recv)
+        if meth in ('first', 'last', 'get', 'nth') and not p.startswith(('std::collections', 'alloc::collections')):
+            return ('sel', meth, recv)
         if meth in CLOSURE_RESULT_METHODS and argn:
             clo = ev(argn[-1])
-            return self.apply_closure(clo, [recv], d)
+            return self.map_over(recv, clo, d)
         if meth in ('map_or', 'map_or_else') and len(argn) == 2:
             dflt = ev(argn[0])
             if meth == 'map_or_else':
@@ -792,7 +831,7 @@ class Prov:
             return ('parsed', recv, cal.get('gargs', ''))
         if meth in BOOL_METHODS:
             return ('op', meth, (recv,) + tuple(ev(a) for a in argn))
-        if meth in NEUTRAL_METHODS:
+        if meth in NEUTRAL_METHODS or meth in ('get', 'first', 'last', 'nth'):
             return recv
         if meth in MUTATOR_NAMES:
             return ('unit',)
@@ -809,6 +848,71 @@ MUTATOR_NAMES = {'push', 'push_str', 'extend', 'insert', 'reserve', 'sort', 'rev
                  'dedup', 'retain', 'truncate', 'push_back', 'extend_from_slice', 'append'}
 TEMPLATE_MACROS = {'quote', 'quote_spanned', 'parse_quote', 'parse_quote_spanned'}
 DIVERGING_MACROS = {'panic', 'unreachable', 'todo', 'unimplemented'}
+
+
+def diverges(e):
+    """does evaluating this expression never complete normally? (syntactic, conservative)"""
+    if e is None:
+        return False
+    k = e.get('k')
+    if k in ('ret', 'break', 'continue'):
+        return True
+    if k == 'macro':
+        return e['name'].split('::')[-1] in DIVERGING_MACROS
+    if k == 'block':
+        if e.get('expr') is not None:
+            return diverges(e['expr'])
+        if e['stmts']:
+            last = e['stmts'][-1]
+            if last['k'] == 'stmt':
+                return diverges(last['e'])
+        return False
+    if k == 'wrap':
+        return diverges(e['e'])
+    if k == 'call' and e.get('callee') and e['callee']['path'] in ('std::process::exit', 'std::process::abort'):
+        return True
+    if k == 'match':
+        return all(diverges(a['body']) for a in e['arms']) and bool(e['arms'])
+    if k == 'if':
+        return e.get('else') is not None and diverges(e['then']) and diverges(e['else'])
+    return False
+
+
+def guards_of_stmt(st):
+    out = []
+    e = st.get('e') if st['k'] == 'stmt' else None
+    if e is not None and e.get('k') == 'if' and e.get('else') is None and diverges(e['then']):
+        out.append(('if', e['cond'], False))
+    if e is not None and e.get('k') == 'if' and e.get('else') is not None and diverges(e['else']) and not diverges(e['then']):
+        out.append(('if', e['cond'], True))
+    if st['k'] == 'let' and st.get('els') is not None:
+        out.append(('letelse', st['init'], pat_summary(st['pat'])))
+    return out
+
+
+def path_conds(fn, node, stop=None):
+    """conditions that must hold for control to reach `node` inside fn (outermost first).
+    entries: ('if', cond_node, polarity) | ('match', scrut_node, patsummary, armidx) | ('letelse', init, pat)
+    Stops at the enclosing closure boundary unless stop is given (closures run when called)."""
+    out = []
+    for parent, role, child in fn.ancestors(node):
+        k = parent.get('k')
+        if k == 'if':
+            if role == 'then':
+                out.append(('if', parent['cond'], True))
+            elif role == 'else':
+                out.append(('if', parent['cond'], False))
+        elif k == 'match' and isinstance(role, tuple) and role[0] == 'arms':
+            arm = parent['arms'][role[1]]
+            out.append(('match', parent['scrut'], pat_summary(arm['pat']), role[1]))
+        elif k == 'block' and isinstance(role, tuple) and role[0] == 'stmts':
+            for st in reversed(parent['stmts'][:role[1]]):
+                out.extend(reversed(guards_of_stmt(st)))
+        elif k == 'block' and role == 'expr':
+            for st in reversed(parent['stmts']):
+                out.extend(reversed(guards_of_stmt(st)))
+    out.reverse()
+    return out
 
 
 def escape_shape(res, args):
@@ -829,14 +933,25 @@ def escape_shape(res, args):
         if leaf[0] == 'fmt':
             ok = True
             has_const = False
+            flat = []
+
+            def fl(a):
+                if a[0] in ('join', 'list') and a != x:
+                    for b in a[1]:
+                        fl(b)
+                elif a[0] == 'sel' and a != x:
+                    fl(a[2])
+                else:
+                    flat.append(a)
             for a in leaf[2]:
-                for aa in (a[1] if a[0] == 'join' else [a]):
-                    if aa == x:
-                        continue
-                    if aa[0] in ('const', 'global'):
-                        has_const = True
-                        continue
-                    ok = False
+                fl(a)
+            for aa in flat:
+                if aa == x:
+                    continue
+                if aa[0] in ('const', 'global'):
+                    has_const = True
+                    continue
+                ok = False
             if ok and has_const:
                 saw_affix = True
                 continue
@@ -886,8 +1001,18 @@ def leaves(t, conds=()):
         for x in sorted(t[1], key=repr):
             yield from leaves(x, conds)
     elif tag == 'if':
-        yield from leaves(t[2], conds + (('if', t[1], True),))
-        yield from leaves(t[3], conds + (('if', t[1], False),))
+        if t[1] == ('const', True):
+            yield from leaves(t[2], conds)
+        elif t[1] == ('const', False):
+            yield from leaves(t[3], conds)
+        else:
+            yield from leaves(t[2], conds + (('if', t[1], True),))
+            yield from leaves(t[3], conds + (('if', t[1], False),))
+    elif tag == 'list':
+        for x in t[1]:
+            yield from leaves(x, conds)
+    elif tag == 'absent':
+        return
     elif tag == 'match':
         for ps, arm in t[2]:
             yield from leaves(arm, conds + (('match', t[1], ps),))
@@ -895,6 +1020,15 @@ def leaves(t, conds=()):
         yield from leaves(t[1], conds)
     else:
         yield conds, t
+
+
+def wrap_conds(conds, value):
+    for c in reversed(conds):
+        if c[0] == 'if':
+            value = ('if', c[1], value, ('absent',)) if c[2] else ('if', c[1], ('absent',), value)
+        elif c[0] == 'match':
+            value = ('match', c[1], ((c[2], value),))
+    return value
 
 
 def strip_xf(t):
